@@ -16,6 +16,7 @@ VARIABLE hist
 
 \* no NOOP round trip is possible while an IDLE occupies the connection
 NoBarrier == \/ \E i \in PendingOf("IDLE") : cmds[i].ph # "stopping"
+             \/ PendingOf("AUTHENTICATE") # {}        \* Authenticate holds the encoder until the exchange is over
              \/ SyncLit /\ \E i \in PendingOf("APPEND") : cmds[i].ph = ""
 
 Obs == [cstate |-> cstate,
